@@ -628,6 +628,12 @@ func c11Plain(c *mc.Ctx, r c11Run) {
 		c.Count("runs_plain", 1)
 		c.Count("plain_vs_passthrough_differ", 1)
 		c.Note(fmt.Sprintf("%s (seed %d, threads %d): plain binary and pass-through instrumented binary differ: %s; two plain runs differ: %v", sc.Name, r.Seed, r.Threads, c11Short(d), c11Diff(a, a2) != ""))
+		if d2 := c11Diff(a, a2); d2 != "" && r.Threads <= 1 {
+			// two executions of the uninstrumented binary, one thread, same input, flags and seed: a source of
+			// randomness the seed does not reach and the instrumentation does not intercept (another generator,
+			// the address of an object, ...).  Observed, not explored: reported as it is.
+			c.Violation("C11/"+sc.Name+"/two-plain-runs-differ", fmt.Sprintf("goalign %s run twice (one thread, seed %d) gives different output: %s", strings.Join(sc.Args, " "), r.Seed, c11Short(d2)), r)
+		}
 	}
 }
 
@@ -873,6 +879,10 @@ func init() {
 			case probe["scenario"] != nil:
 				var r c11Run
 				json.Unmarshal(payload, &r)
+				if r.Plain {
+					c11Plain(c, r)
+					return
+				}
 				if r.Choices == nil {
 					r.Choices = []vrt.Point{}
 				}
